@@ -566,3 +566,6 @@ twin("c16-twin-link-oneliner", "C16", (ZIP, '                    dest = os.path.
 fault("c17-repeat-map-shared", "C17", "R17h", (TALES, "\t\tself.repeatStack.append (self.repeatMap)\n\t\tself.repeatMap = self.repeatMap.copy()\n", ""), (TALES, "\t\tself.repeatMap = self.repeatStack.pop()\n", "\t\tself.repeatMap.pop (name, None)\n"))
 fault("c18-locals-not-copied", "C18", "R18c", (TALES, "\t\tself.locals = self.locals.copy()\n", ""))
 twin("c18-twin-locals-dict-copy", "C18", (TALES, "\t\tself.locals = self.locals.copy()\n", "\t\tself.locals = dict (self.locals)\n"))
+
+twin("c20-twin-log-class-attr", "C20", (GEXC, "    exceptionclass = type(exception).__name__", "    exceptionclass = exception.__class__.__name__"))
+twin("c10-twin-cachename-local", "C10", (DIR, "            statval = self.vfs.stat(self.cachename)\n", "            name = self.cachename\n            statval = self.vfs.stat(name)\n"))
